@@ -2,9 +2,9 @@ package main
 
 import (
 	"fmt"
-	"os"
 	"go/token"
 	"go/types"
+	"os"
 	"sort"
 	"strings"
 
@@ -589,7 +589,6 @@ func isValueMethodOfErrorOrStringer(f *ssa.Function) bool {
 	return leaf
 }
 
-
 // loginEventReadOnly (S7): a RemoteUserLogin carries a pointer to the
 // UserLogin event built by the sshd worker. That worker is outside the
 // tracker's mutex; the correlator side (packages processors/auditd/...)
@@ -714,7 +713,6 @@ func loginEventReadOnly(c *Check) {
 	c.OK("S7 login-event-read-only", "correlator packages processors/auditd/... and internal/common", "-", fmt.Sprintf("%d functions scanned, %d read(s) through RemoteUserLogin.Source, no write", nfn, nread))
 	c.Floor("reads through RemoteUserLogin.Source in the correlator (the rule has something to look at)", 1, nread)
 }
-
 
 // plainValueType: values of the type carry no reference to mutable state
 // (basic types, and structs/arrays of such; time.Time counts as plain).
